@@ -34,6 +34,10 @@ enum Act {
     Refresh,
     /// publish feeds with a wider spread / higher index price at the current time
     Reprice,
+    /// claim the accrued fees of a market's long/short token (by the fee receiver or a stranger)
+    ClaimFees(usize, bool, Who),
+    /// keeper transfer into a market's recorded balance
+    TransferIn(usize, bool, u64),
 }
 
 #[derive(Clone, Copy, Debug, PartialEq, Eq, Hash)]
@@ -231,6 +235,15 @@ impl Machine for Life {
                 w.set_feeds(&mut n.db, s.now, (12_0000_0000, 12_0000_0000), (1_0000_0000, 1_0000_0000));
                 None
             }
+            Act::ClaimFees(mi, is_long, who) => {
+                let m = self.markets()[mi];
+                let by = match who { Who::Owner => w.admin, Who::Keeper => w.keeper, Who::Stranger => w.stranger };
+                Some(w.claim_fees(&mut n.db, m, if is_long { w.a } else { w.b }, by))
+            }
+            Act::TransferIn(mi, is_long, amount) => {
+                let m = self.markets()[mi];
+                Some(w.market_transfer_in(&mut n.db, m, if is_long { w.a } else { w.b }, amount, w.keeper))
+            }
             Act::Reprice => {
                 w.set_feeds(&mut n.db, s.now, (12_9000_0000, 13_1000_0000), (9990_0000, 1_0010_0000));
                 None
@@ -414,14 +427,69 @@ pub fn run(cli: &Cli) -> Report {
         acts.extend([Act::Create(i), Act::Exec(i, Who::Keeper), Act::Exec(i, Who::Stranger), Act::Close(i, Who::Owner), Act::Close(i, Who::Keeper), Act::Close(i, Who::Stranger)]);
     }
     acts.extend([Act::Adv(30), Act::Adv(100), Act::Refresh, Act::Reprice]);
+    let mut starts = vec![St { db: db.clone(), now: 1_000, phase: [Phase::Absent; 5], snap: [Snapshot::default(); 5] }];
+    if props == P22 {
+        // fee claims and keeper transfers, and start states that position activity would leave behind
+        // (collateral sums, accrued fees, funding already paid out), fabricated through a real RevertibleMarket
+        acts.extend([
+            Act::ClaimFees(0, true, Who::Owner), Act::ClaimFees(0, false, Who::Owner), Act::ClaimFees(1, true, Who::Owner), Act::ClaimFees(0, true, Who::Stranger),
+            Act::TransferIn(0, true, 1_000), Act::TransferIn(1, false, 7),
+        ]);
+        for k in [w.keeper, w.admin] {
+            db.set(ata(&k, &w.a), world::token_acc(w.a, k, 1_000_000_000));
+            db.set(ata(&k, &w.b), world::token_acc(w.b, k, 1_000_000_000));
+        }
+        starts[0].db = db.clone();
+        for variant in 0..3u8 {
+            use gmsol_model::{Bank as _, BaseMarketMut as _, PerpMarketMut as _, Pool as _, PoolExt as _};
+            let mut d = db.clone();
+            for (mi, m) in [w.m1.clone(), w.m2.clone()].iter().enumerate() {
+                let mk: Market = w.market(&d, m);
+                let bal = [mk.state().long_token_balance_raw() as i128, mk.state().short_token_balance_raw() as i128];
+                let fee: i128 = 400_000 + 1_000 * mi as i128;
+                // variant 0: fees accrued, exactly backed (no slack over the pools)
+                // variant 1: collateral close to the whole recorded balance: claiming the fees would eat into it
+                // variant 2: as 1 on the short token, collateral split over both sides
+                let (fee_side_long, coll): (bool, i128) = match variant {
+                    0 => (true, 0),
+                    1 => (true, bal[0] + fee - 20_000),
+                    _ => (false, bal[1] + fee - 1),
+                };
+                w.edit_market(&mut d, m, |rm| {
+                    let token = if fee_side_long { w.a } else { w.b };
+                    if fee_side_long {
+                        rm.claimable_fee_pool_mut().unwrap().apply_delta_to_long_amount(&fee).unwrap();
+                    } else {
+                        rm.claimable_fee_pool_mut().unwrap().apply_delta_to_short_amount(&fee).unwrap();
+                    }
+                    rm.record_transferred_in_by_token(&token, &(fee as u64)).unwrap();
+                    if coll > 0 {
+                        let (a, b) = (coll / 2, coll - coll / 2);
+                        if fee_side_long {
+                            rm.collateral_sum_pool_mut(true).unwrap().apply_delta_to_long_amount(&a).unwrap();
+                            rm.collateral_sum_pool_mut(false).unwrap().apply_delta_to_long_amount(&b).unwrap();
+                        } else {
+                            rm.collateral_sum_pool_mut(true).unwrap().apply_delta_to_short_amount(&a).unwrap();
+                            rm.collateral_sum_pool_mut(false).unwrap().apply_delta_to_short_amount(&b).unwrap();
+                        }
+                    }
+                });
+                // the fee tokens sit in the shared vault
+                let token = if fee_side_long { w.a } else { w.b };
+                let v = w.vault(&token);
+                let amount = token_amount(&d, &v) + fee as u64;
+                d.set(v, world::token_acc(token, w.store, amount));
+            }
+            starts.push(St { db: d, now: 1_000, phase: [Phase::Absent; 5], snap: [Snapshot::default(); 5] });
+        }
+    }
     let life = Life { w, acts, slots, props };
-    let start = St { db, now: 1_000, phase: [Phase::Absent; 5], snap: [Snapshot::default(); 5] };
     if let Some(rv) = &cli.replay {
-        e2::replay_into(&mut rep, &life, &[start], rv);
+        e2::replay_into(&mut rep, &life, &starts, rv);
         return rep;
     }
     let depth = if th { 6 } else { 5 };
-    let o = e2::explore(&mut rep, "deposit/withdrawal lifecycles over two markets", &life, vec![start], &e2::Config { depth, max_states: 5_000_000 }, json!({"thorough": th}));
+    let o = e2::explore(&mut rep, "deposit/withdrawal lifecycles over two markets", &life, starts, &e2::Config { depth, max_states: 5_000_000 }, json!({"thorough": th}));
     for needed in ["Create:ok", "Exec:ok", "Exec:err", "Close:ok", "Close:err"] {
         if o.histogram.get(needed).copied().unwrap_or(0) == 0 {
             rep.machinery(format!("vacuous exploration: outcome {needed} never occurred"));
